@@ -12,6 +12,8 @@ import sys
 
 MODULES = ["contracts.c17_ext"]
 AB, BL = "quimb/linalg/autoblock.py", "quimb/linalg/base_linalg.py"
+SL = "quimb/linalg/scipy_linalg.py"
+NL = "quimb/linalg/numpy_linalg.py"
 
 _SS = "    for i in range(dp):\n        for j in range(dp):\n            A[p[i], p[j]] = B[i, j]"
 
@@ -28,7 +30,8 @@ MUTANTS = [
     # ---------------------------------------------------------------- E1 subselect_set
     (AB, "::subselect_set", "A[p[i], p[j]] = B[i, j]", "A[p[i], p[j]] = B[j, i]", "expect-fail"),
     (AB, "::subselect_set", "A[p[i], p[j]] = B[i, j]", "A[p[j], p[i]] = B[i, j]", "expect-fail"),
-    (AB, "::subselect_set", "A[p[i], p[j]] = B[i, j]", "A[p[i], j] = B[i, j]", "expect-fail"),
+    (AB, "::subselect_set", "A[p[i], p[j]] = B[i, j]", "A[p[i], p[j]] = B[i, i]", "expect-fail"),
+    (AB, "::subselect_set", "A[p[i], p[j]] = B[i, j]", "A[p[i], p[j]] = B[i, j]\n            A[0, 0] = B[i, j]", "expect-fail"),  # frame
     (AB, "::subselect_set", _SS, _SS.replace("for j in range(dp)", "for j in range(i, dp)"), "expect-fail"),
     (AB, "::subselect_set", "A[p[i], p[j]] = B[i, j]", "v = B[i, j]\n            A[p[i], p[j]] = v", "benign"),
     # ---------------------------------------------------------------- E1 _rel_window_to_abs_window
@@ -96,7 +99,71 @@ MUTANTS = [
     (BL, "::sqrtm::fdx", "    elif not herm:\n        return qarray(sla.sqrtm(A))", "    elif herm:\n        return qarray(sla.sqrtm(A))",
      "expect-fail"),
     (BL, "::sqrtm::fdx", "def sqrtm(A, herm=True):", "def sqrtm(A, herm=False):", "expect-fail"),
+    # ---------------------------------------------------------------- fdx eigs_scipy (shift-invert translation)
+    (SL, "eigs_scipy::fdx-which-translation", '            else "LM"\n            if (which is None) and (sigma is not None)',
+     '            else "TR"\n            if (which is None) and (sigma is not None)', "expect-fail"),
+    (SL, "eigs_scipy::fdx-which-translation", 'if ("T" in which.upper()) and (sigma is not None)',
+     'if ("T" in which) and (sigma is not None)', "expect-fail"),
+    (SL, "eigs_scipy::fdx-which-translation", '            else "LM"\n            if ("T" in which.upper())',
+     '            else "SM"\n            if ("T" in which.upper())', "expect-fail"),
+    (SL, "eigs_scipy::fdx-settings-threaded", '"tol": 0 if tol is None else tol,', '"tol": 0,', "expect-fail"),
+    (SL, "eigs_scipy::fdx-settings-threaded", '        "sigma": sigma,\n        "return_eigenvectors": return_vecs,',
+     '        "sigma": None,\n        "return_eigenvectors": return_vecs,', "expect-fail"),
+    (SL, "eigs_scipy::fdx-hermitian-flag", "eigs = spla.eigsh if isherm else spla.eigs", "eigs = spla.eigs if isherm else spla.eigsh",
+     "expect-fail"),
+    (SL, "eigs_scipy::fdx-values-and-vectors-sorted-together", "lk, vk = lk[sortinds], vk[:, sortinds]", "lk = lk[sortinds]", "expect-fail"),
+    (SL, "eigs_scipy::fdx-values-and-vectors-sorted-together", "return np.sort(lk) if sort else lk", "return lk", "expect-fail"),
+    (SL, "eigs_scipy::fdx-", "        sortinds = np.argsort(lk)\n", "        sortinds = np.argsort(lk, kind='stable')\n", "benign"),
+    # ---------------------------------------------------------------- fdx eig_numpy / eigensystem_autoblocked
+    (NL, "eig_numpy::fdx-solver-table", "(True, True): nla.eigh,", "(True, True): nla.eig,", "expect-fail"),
+    (NL, "eig_numpy::fdx-solver-table", "(False, True): nla.eigvalsh,\n    (False, False): nla.eigvals,",
+     "(False, True): nla.eigvals,\n    (False, False): nla.eigvalsh,", "expect-fail"),
+    (NL, "eig_numpy::fdx-routes", "evals = _NUMPY_EIG_FUNCS[return_vecs, isherm](A)", "evals = _NUMPY_EIG_FUNCS[isherm, return_vecs](A)",
+     "expect-fail"),
+    (NL, "eig_numpy::fdx-values-and-vectors-sorted-together", "evals, evecs = evals[sortinds], evecs[:, sortinds]",
+     "evals, evecs = evals[sortinds], evecs[sortinds, :]", "expect-fail"),
+    (NL, "eig_numpy::fdx-values-and-vectors-sorted-together", "    if sort:\n        evals.sort()", "    if not sort:\n        evals.sort()",
+     "expect-fail"),
+    (NL, "eig_numpy::fdx-autoblock-flags", "A, sort=sort, isherm=isherm, return_vecs=return_vecs\n        )",
+     "A, sort=sort, isherm=isherm, return_vecs=True\n        )", "expect-fail"),
+    (NL, "eig_numpy::fdx-", "            sortinds = np.argsort(evals)\n            evals, evecs",
+     "            sortinds = np.argsort(evals, kind='stable')\n            evals, evecs", "benign"),
+    (AB, "eigensystem_autoblocked::fdx", "    if not return_vecs:\n        return _eigvalsh_autoblocked(A, sort=sort)",
+     "    if not return_vecs:\n        return _eigvalsh_autoblocked(A, sort=True)", "expect-fail"),
+    (AB, "eigensystem_autoblocked::fdx", "    if not isherm:\n        err_msg", "    if isherm is None:\n        err_msg", "expect-fail"),
+    (AB, "eigensystem_autoblocked::fdx", "    el, ev = _eigh_autoblocked(A, sort=sort)\n    return el, qarray(ev)",
+     "    ev, el = _eigh_autoblocked(A, sort=sort)\n    return el, qarray(ev)", "expect-fail"),
+    # ---------------------------------------------------------------- fdx subspace projection P (free *-algebra words)
+    (SL, "eigs_scipy::fdx-projection", "    if P is not None:\n        A = qu.dag(P) @ (A @ P)\n\n    # Options that",
+     "    if P is not None:\n        A = P.T @ (A @ P)\n\n    # Options that", "expect-fail"),
+    (SL, "eigs_scipy::fdx-projection", "    if P is not None:\n        A = qu.dag(P) @ (A @ P)\n\n    # Options that",
+     "    if P is not None:\n        A = P.conj() @ (A @ P)\n\n    # Options that", "expect-fail"),
+    (SL, "eigs_scipy::fdx-projection", "    if P is not None:\n        A = qu.dag(P) @ (A @ P)\n\n    # Options that",
+     "    if P is not None:\n        A = P @ (A @ qu.dag(P))\n\n    # Options that", "expect-fail"),
+    (SL, "eigs_scipy::fdx-projection", "    if P is not None:\n        vk = P @ vk\n\n    return lk, qu.qarray(vk)",
+     "    if P is not None:\n        vk = P.conj() @ vk\n\n    return lk, qu.qarray(vk)", "expect-fail"),
+    (SL, "eigs_scipy::fdx-projection", "    if P is not None:\n        A = qu.dag(P) @ (A @ P)\n\n    # Options that",
+     "    if P is not None:\n        A = (qu.dag(P) @ A) @ P\n\n    # Options that", "benign"),
+    (SL, "eigs_lobpcg::fdx-projection", "    if P is not None:\n        A = qu.dag(P) @ (A @ P)\n\n    # avoid matrix like",
+     "    if P is not None:\n        A = P.T @ (A @ P)\n\n    # avoid matrix like", "expect-fail"),
+    (SL, "eigs_lobpcg::fdx-projection", "            v0 = qu.dag(P) @ v0", "            v0 = P.T @ v0", "expect-fail"),
+    (SL, "eigs_lobpcg::fdx-projection", "    if P is not None:\n        A = qu.dag(P) @ (A @ P)\n\n    # avoid matrix like",
+     "    if P is not None:\n        A = qu.dag(P) @ A\n\n    # avoid matrix like", "expect-fail"),
+    (NL, "eigs_numpy::fdx-projection", "    if P is not None:\n        A = qu.dag(P) @ (A @ P)", "    if P is not None:\n        A = P.T @ (A @ P)",
+     "expect-fail"),
+    (NL, "eigs_numpy::fdx-projection", "    if P is not None:\n        A = qu.dag(P) @ (A @ P)", "    if P is not None:\n        A = qu.dag(P) @ (A.T @ P)",
+     "expect-fail"),
+    (NL, "eigs_numpy::fdx-projection", "        if P is not None:\n            vk = P @ vk", "        if P is not None:\n            vk = qu.dag(P).T @ vk",
+     "expect-fail"),
+    (NL, "eigs_numpy::fdx-projection", "    if P is not None:\n        A = qu.dag(P) @ (A @ P)", "    if P is not None:\n        A = P.conj().T @ (A @ P)",
+     "benign"),
     # ---------------------------------------------------------------- frame (ast)
+    (AB, "_eigvalsh_autoblocked::frame", "el[g] = np.linalg.eigvalsh(subselect(A, g))", "el[g] = np.linalg.eigvalsh(subselect(A.real, g))",
+     "expect-fail"),
+    (AB, "_eigvalsh_autoblocked::frame", "            el[g[0]] = A[g[0], g[0]].real\n            continue\n\n        el[g] = np.linalg.eigvalsh",
+     "            el[g[0]] = A[g[0], g[-1]].real\n            continue\n\n        el[g] = np.linalg.eigvalsh", "expect-fail"),
+    (AB, "_eigvalsh_autoblocked::frame", "    if sort:\n        return np.sort(el)\n\n    return el", "    if sort:\n        return el\n\n    return el",
+     "expect-fail"),
     (BL, "sqrtm::frame-sqrt", "np.sqrt(evals.astype(complex))", "np.sqrt(evals)", "expect-fail"),  # seeded regression
     (BL, "sqrtm::frame-sqrt", "np.sqrt(evals.astype(complex))", "np.sqrt(evals.astype(float))", "expect-fail"),
     (BL, "sqrtm::frame-sqrt", "np.sqrt(evals.astype(complex))", "np.sqrt(evals.astype(np.complex128))", "benign"),
